@@ -30,7 +30,15 @@ func genMicroGate(seed uint64) *Plan {
 	k["reb_iters"] = g.rng(2, 8)
 	k["records_pct"] = g.pick(30, 60, 90)
 	k["allow_in_reb_pct"] = g.pick(0, 30, 80)
-	k["empty_poller"] = 0 // a second polling goroutine would have to coordinate AllowRebalance with the first (documented contract)
+	// a second goroutine whose polls return nothing, uncoordinated with the
+	// first goroutine's AllowRebalance: its release can land after
+	// AllowRebalance has reset the poller count (the underflow guard of
+	// unaddPoller exists for exactly this)
+	if g.pct(40) {
+		k["empty_poller"] = 1
+	} else {
+		k["empty_poller"] = 0
+	}
 	return g.P
 }
 
